@@ -43,17 +43,21 @@ GanttDoc(W) ==
 (* Mermaid network: one Start edge per task without predecessors, one edge per dependency *)
 EdgeEntry(W, p, t) == [kind |-> "edge", src |-> IF p = 0 THEN 0 ELSE W.ids[p], srcStart |-> p = 0,
                        srcName |-> IF p = 0 THEN 0 ELSE W.name[p], dst |-> W.ids[t], dstName |-> W.name[t]]
+(* an edge from a predecessor OUTSIDE the WBS: the harness names every outside task "outside" (-7) *)
+ExtEdge(W, x, t) == [kind |-> "edge", src |-> x, srcStart |-> FALSE, srcName |-> -7, dst |-> W.ids[t], dstName |-> W.name[t]]
 NetworkDoc(W) ==
     Flat([t \in Tr(W) |->
-            IF W.pre[t] = <<>> THEN <<EdgeEntry(W, 0, t)>>
-            ELSE [i \in DOMAIN W.pre[t] |-> EdgeEntry(W, W.pre[t][i], t)]])
+            IF W.pre[t] = <<>> /\ W.ext[t] = <<>> THEN <<EdgeEntry(W, 0, t)>>
+            ELSE [i \in DOMAIN W.pre[t] |-> EdgeEntry(W, W.pre[t][i], t)]
+                 \o [i \in DOMAIN W.ext[t] |-> ExtEdge(W, W.ext[t][i], t)]])
 
 (* DHTMLX: one data entry per task, one uniquely numbered link per dependency *)
 DataEntry(W, t) == [id |-> W.ids[t], name |-> W.name[t], ms |-> W.ms[t], start |-> W.start[t], end |-> W.end[t],
                     parent |-> IF W.par[t] = 0 THEN 0 ELSE W.ids[W.par[t]]]
 DhtmlxData(W)  == {DataEntry(W, t) : t \in Tr(W)}
-LinkPairs(W)   == UNION {{<<W.ids[p], W.ids[t]>> : p \in RanR(W.pre[t])} : t \in Tr(W)}
-NumLinks(W)    == Len(Flat([t \in Tr(W) |-> W.pre[t]]))
+LinkPairs(W)   == UNION {{<<W.ids[p], W.ids[t]>> : p \in RanR(W.pre[t])} \cup {<<x, W.ids[t]>> : x \in RanR(W.ext[t])}
+                         : t \in Tr(W)}
+NumLinks(W)    == Len(Flat([t \in Tr(W) |-> W.pre[t] \o W.ext[t]]))
 
 ---------------------------------------------------------------------------
 (* sheets: rows of a printed sheet, [t, depth] in depth-first order *)
